@@ -36,6 +36,7 @@ RULES = {
     "C08-H5": "the buffer is NUL-terminated after the last change of the fill level before every parse",
     "C08-H7": "the text attached to -113 is cut before every trailing terminator byte (CR and LF alike), so it does not depend on whether CR and LF arrived in the same call",
     "C08-H8": "the overrun refusal is exact: a chunk is refused only if position + len + 1 > buffer length (data that fits is never discarded)",
+    "C08-H9": "definite-length block: once the '#', the digit count and all length digits have been read the block is either complete or incomplete (rest swallowed) - never rejected, whatever the announced length",
     "C08-H6": "a line is executed exactly when the scanner reports a NL termination",
 }
 
@@ -287,6 +288,62 @@ def rule_h7(ck, prog, S):
         ck.undecided("C08-H7", st, K.loc(parse, push), "trimming of the -113 text not found in SCPI_Parse (length argument `%s`)" % a[3].src)
 
 
+def rule_h9(ck, prog):
+    f = prog.fn("scpiLex_ArbitraryBlockProgramData")
+    if f is None:
+        ck.anchor_lost("C08-H9", "scpiLex_ArbitraryBlockProgramData")
+        return
+    ck.analysed(f)
+    st = K.site(f, "header-complete-never-rejected", 0)
+    unk = prog.enumconst.get("SCPI_TOKEN_UNKNOWN")
+    blk = prog.enumconst.get("SCPI_TOKEN_ARBITRARY_BLOCK_PROGRAM_DATA")
+    # the counter of outstanding length digits: the local that is decremented in a loop and compared with 0
+    cnt = None
+    for n, t in C.stores(f):
+        if n.k == "UnaryOperator" and n.get("op") == "--" and t.k == "DeclRefExpr":
+            cnt = t.get("path")
+    if cnt is None:
+        ck.undecided("C08-H9", st, K.loc(f), "digit counter of the block header not found")
+        return
+    bad = None
+    ncomplete = 0
+    try:
+        sums = P.summarize(f, max_visits=2)
+    except P.TooManyPaths:
+        ck.undecided("C08-H9", st, K.loc(f), "too many paths")
+        return
+    for ps in sums:
+        done = None
+        for a, pol in ps.facts:
+            if isinstance(pol, tuple) or a.k != "BinaryOperator":
+                continue
+            l, r = a.child(0).strip_all_casts(), a.child(1).strip_all_casts()
+            if l.get("path") == cnt and C.const_of(r) == 0:
+                if a.get("op") == "==":
+                    done = pol
+                elif a.get("op") == ">":
+                    done = (not pol) if done is None or pol else done
+        if done is not True:
+            continue
+        ncomplete += 1
+        # outcome: token type stored last / cursor stores
+        types = [C.const_of(e[1].child(1)) for e in ps.events if e[0] == "store" and (C.store_target(e[1]).get("path") or "").endswith("->type")]
+        stores_pos = [e[1] for e in ps.events if e[0] == "store" and (C.store_target(e[1]).get("path") or "").endswith("->pos")]
+        rolled_back = bool(stores_pos) and stores_pos[-1].get("op") == "=" and \
+            (stores_pos[-1].child(1).strip_all_casts().get("path") or "").endswith("->ptr")
+        if types and types[-1] == unk and rolled_back:
+            bad = bad or ps
+    if ncomplete == 0:
+        ck.anchor_lost("C08-H9", "no path on which all length digits were read (%s == 0)" % cnt)
+    elif bad is not None:
+        ck.violated("C08-H9", st, K.loc(f, bad.ret_node),
+                    "a block whose header was read completely can still be rejected and the cursor rolled back (for instance because "
+                    "its announced length exceeds what has arrived so far): a line terminator inside the partly received payload then "
+                    "ends the message, and the same bytes fed in one piece are accepted", {"path": bad.describe()[-8:]})
+    else:
+        ck.holds("C08-H9", st, K.loc(f), "%d header-complete paths: complete token or everything swallowed" % ncomplete)
+
+
 def rule_h8(ck, prog, S):
     f = prog.fn("SCPI_Input")
     if f is None:
@@ -331,6 +388,9 @@ def run(ck, fb, tier):
         h5(ck, prog, S)
         rule_h7(ck, prog, S)
         rule_h8(ck, prog, S)
+        rule_h9(ck, prog)
+        c09.rule_h4(K.RuleProxy(ck, {"C09-H4": "C08-H3"}), prog)
+        c13.rule_t5_detector(K.RuleProxy(ck, {"C13-T5": "C08-H6"}), prog, S)
     ck.assume("the stream never leaves more unterminated data pending than the input buffer holds (the property's precondition)")
 
 
